@@ -74,6 +74,7 @@ func init() {
 		Assumptions: []string{"cursor variables are non-negative (initialised to 0 and only incremented)", "strconv.ParseFloat (tdewolff/parse) returns 0 <= n <= len(b)", "third-party dependencies are trusted not to panic"},
 		Run: func(c *core.Ctx, r *core.Report) {
 			E4ParserGuards(c, r)
+			E2PenTracking(c, r, []string{"Path.ToSVG", "Path.ToPS", "Path.ToPDF"})
 			r.Rule("E4.panic-reach", "no explicit panic(...) call in the module or its Go dependencies is reachable in the VTA call graph from ParseSVGPath or ParseSVG, except sites in the reviewed table (function + message -> why no parser input reaches it)")
 			roots := []*ssa.Function{c.SSAFunc("", "ParseSVGPath"), c.SSAFunc("", "ParseSVG")}
 			E4PanicReachability(c, r, "E4.panic-reach", roots, c11ReviewedPanics, true)
@@ -153,6 +154,7 @@ func init() {
 			E1Renderers(c, r)
 			E6StyleCoverage(c, r, map[string]bool{"Rasterizer": true})
 			E6ScannerSites(c, r)
+			E6WindingMode(c, r)
 		},
 	})
 }
@@ -166,6 +168,7 @@ func init() {
 			E11ContextState(c, r)
 			E11Replay(c, r)
 			E1ContextDraws(c, r)
+			E1ContextSetters(c, r)
 		},
 	})
 }
@@ -216,6 +219,17 @@ func init() {
 		Explanation: "Decides the unit and coverage tables of the importer for every document: parseDimension's factors equal the CSS absolute-unit and angle tables (constant folding); the canvas size is in millimetres on every branch (explicit width/height and viewBox fallback use the same px→mm factor) and init uses the inverse factor, the y-down coordinate system and the size/viewBox user-unit scale (px→mm without a viewBox); drawShape has a case for each basic shape; the path data parser's index guards and explicit-panic freedom are decided under C11. NOT decided: styling precedence, CSS selectors, transform order, per-element geometry, the write/read round trip.",
 		Run: func(c *core.Ctx, r *core.Report) {
 			E11SVGUnits(c, r)
+			E11ReuseAfterEscape(c, r, "/svg.go")
+		},
+	})
+}
+
+func init() {
+	register("C16", &Property{
+		Title: "Text layout places every character once, inside the box, on ordered lines",
+		Explanation: "Decides one clause only, the structural part of 'lines are stacked monotonically by their line heights … Text.Bounds/Heights enclose all spans': a line's top/ascent/descent/bottom are pure component-wise math.Max folds over its spans (each accumulator folded with the same-named component of FontFace.heights(), inline objects' ascent/descent feeding the right pair), and Text.Heights combines the first line's ascent with the last line's descent. NOT decided: everything else — that every character appears exactly once and in order, glyph/byte index bookkeeping, glue stretching, alignment, bidi reordering, Overflows, which are arithmetic over runtime arrays with no structural clause.",
+		Run: func(c *core.Ctx, r *core.Report) {
+			E3LineHeights(c, r)
 		},
 	})
 }
